@@ -1,4 +1,5 @@
 import SpecVerif.Proofs.Lemmas.Scale
+import SpecVerif.Proofs.Lemmas.AdaptLoop
 import SpecVerif.Proofs.C08
 import SpecVerif.Proofs.C14
 import Mathlib.Algebra.Star.Rat
@@ -16,10 +17,14 @@ import Mathlib.Tactic.NormNum
   `c • x` is `x.map (c * ·)`, and `|c|²` is written `c * star c` (self-adjoint, non-zero when `c ≠ 0`).
   Property theorems only; the helper lemmas are in `Proofs/Lemmas/Scale.lean` (`SpecVerif.ScaleL`).
 
-  The multitaper part of the property is already proved in `Proofs/C19.lean`:
+  The per-evaluation multitaper facts are proved in `Proofs/C19.lean`:
   `C19.mt_scale` (every eigenspectrum of `c • x` is `c •` the eigenspectrum of `x`, any table) and
   `C19.mt_scale_weight` (Thomson's adaptive weight is unchanged when the spectrum value and the data
-  power are both multiplied by `|c|²`); they are not restated here.
+  power are both multiplied by `|c|²`); they are not restated here.  Section 9 below proves the
+  statement for the WHOLE adaptive iteration (`mt_adapt_scale`, `mt_adapt_scale_data`): the 100-fuel
+  `while` loop of `pmtm(method='adapt')`, whose tolerance `0.0005·σ²/NFFT` scales with the data power,
+  takes the same stopping decision at every pass, so the returned weights are unchanged and the adaptive
+  multitaper mean is multiplied by `|c|²` (helpers: `Proofs/Lemmas/AdaptLoop.lean`, `SpecVerif.AdaptL`).
 -/
 namespace SpecVerif.C03
 open Finset SpecVerif SpecVerif.ScaleL SpecVerif.LSL
@@ -411,6 +416,89 @@ theorem guard_scale_gt {F : Type} [RCLike F] [ReOrd F]
     (hspec : ∀ a b : F, reGt a b = true ↔ RCLike.re a > RCLike.re b) {t : ℝ} (ht : 0 < t) (a b : F) :
     reGt ((t : F) * a) ((t : F) * b) = reGt a b :=
   reGt_abs_mul hspec ht a b
+
+/-! ### 9. the adaptive multitaper weighting: the whole iteration -/
+
+section Adapt
+open SpecVerif.AdaptL SpecVerif.ShiftL
+
+/-- **adaptive multitaper weights, the whole loop**: let `t = c·conj c = |c|²` be non-zero and invisible
+to the two comparisons of the model (`reGt (t·a) (t·b) = reGt a b`, `reLe0 (t·z) = reLe0 z`: any positive
+real `t`, see `mt_adapt_scale_data`).  With the data multiplied by `c` and every `|eigenspectrum|²`
+multiplied by `t`, `pmtm(method='adapt')` — the start estimate, the data power `σ²`, the tolerance
+`tolc·σ²/NFFT`, and all (at most 100) passes of the `while` loop with its stopping test
+`Σ_f|S[f]-S1[f]|/NFFT > tol` — returns the SAME `NFFT × nwin` table of weights, and the adaptive
+multitaper mean `Σ_t W[f][t]·SkA[t][f]/nwin` is multiplied by `t`.  No hypothesis on `NFFT`, `N`, `nwin`,
+the eigenvalues or `tolc`: nothing is cancelled except the common factor `t` in Thomson's weight. -/
+theorem mt_adapt_scale [ReOrd K] {t : K} (ht : t ≠ 0)
+    (hgt : ∀ a b : K, reGt (t * a) (t * b) = reGt a b) (hre : ∀ z : K, reLe0 (t * z) = reLe0 z)
+    {c : K} (hct : c * star c = t) (x lams : List K) (SkA : List (List K)) (nfft : ℕ) (tolc : K) :
+    pmtmWeights .adapt (x.map (c * ·)) lams (SkA.map (·.map (t * ·))) nfft tolc
+        = pmtmWeights .adapt x lams SkA nfft tolc ∧
+    mtMean .adapt (SkA.map (·.map (t * ·)))
+        (pmtmWeights .adapt (x.map (c * ·)) lams (SkA.map (·.map (t * ·))) nfft tolc) nfft lams.length
+      = (mtMean .adapt SkA (pmtmWeights .adapt x lams SkA nfft tolc) nfft lams.length).map
+          (t * ·) := by
+  have hSk : ∀ τ f, f < nfft →
+      nth ((SkA.map (·.map (t * ·))).getD τ []) f = t * nth (SkA.getD τ []) f :=
+    fun τ f _ => nth_getD_map_scale t SkA τ f
+  have hW := pmtmWeights_adapt_scale ht hgt hre hct x lams _ SkA nfft tolc hSk
+  refine ⟨hW, ?_⟩
+  rw [hW]
+  exact mtMean_adapt_scale t _ SkA _ nfft lams.length hSk
+
+/-- the table of squared eigenspectra that `pmtm` / `MultiTapering` build from the data and the tapers
+(`mtSkAbs2`, the table of `C04.multitaper_shift`; `= GridL.mtSkA` of C05 by `AdaptL.mtSkA_eq_mtSkAbs2`):
+for `c • x` every entry is multiplied by `|c|²` (from `C19.mt_scale` and `|c z|² = |c|²|z|²`) -/
+theorem mt_table_scale (tw x : List K) (tapers : List (List K)) (nfft : ℕ) (c : K) :
+    mtSkAbs2 tw (x.map (c * ·)) tapers nfft
+      = (mtSkAbs2 tw x tapers nfft).map (·.map ((c * star c) * ·)) :=
+  mtSkAbs2_scale tw x tapers nfft c
+
+/-- **adaptive multitaper, end to end** (`F = ℝ`, `ℂ`, any `RCLike` scalar type; `reLe0` the test
+`Re z ≤ 0`, `reGt` the test `Re a > Re b`): multiplying the data by any `c ≠ 0` leaves the adaptive weights
+returned by `pmtm(method='adapt')` unchanged — the whole iteration, with the eigenspectra computed by the
+model from the data and the tapers (any twiddle table) — and multiplies the adaptive multitaper mean by
+`|c|² = c·conj c`. -/
+theorem mt_adapt_scale_data {F : Type} [RCLike F] [ReOrd F]
+    (hspec : ∀ z : F, reLe0 z = true ↔ RCLike.re z ≤ 0)
+    (hgt : ∀ a b : F, reGt a b = true ↔ RCLike.re a > RCLike.re b) {c : F} (hc : c ≠ 0)
+    (tw x lams : List F) (tapers : List (List F)) (nfft : ℕ) (tolc : F) :
+    pmtmWeights .adapt (x.map (c * ·)) lams (mtSkAbs2 tw (x.map (c * ·)) tapers nfft) nfft tolc
+        = pmtmWeights .adapt x lams (mtSkAbs2 tw x tapers nfft) nfft tolc ∧
+    mtMean .adapt (mtSkAbs2 tw (x.map (c * ·)) tapers nfft)
+        (pmtmWeights .adapt (x.map (c * ·)) lams (mtSkAbs2 tw (x.map (c * ·)) tapers nfft) nfft tolc)
+        nfft lams.length
+      = (mtMean .adapt (mtSkAbs2 tw x tapers nfft)
+          (pmtmWeights .adapt x lams (mtSkAbs2 tw x tapers nfft) nfft tolc) nfft lams.length).map
+          ((c * star c) * ·) := by
+  rw [mt_table_scale]
+  exact mt_adapt_scale (mul_star_self_ne_zero hc) (reGt_abs2_mul hgt hc)
+    (reLe0_abs2_mul hspec hc) rfl x lams _ nfft tolc
+
+/-- non-vacuity of `mt_adapt_scale`: `K = ℚ` (trivial involution, tests `≤`, `>` on `ℚ`), `c = -3`,
+`t = 9`; the order hypotheses hold, and on data `[1, 1]`, eigenvalues `[1/2, 1/4]`, `SkA = [[1, 2], [3, 4]]`,
+`NFFT = 2`, `tolc = 4` the loop makes exactly one pass (not zero, not 100) for both amplitudes and returns
+the same non-trivial weights (the example of `C19`) -/
+example :
+    letI : ReOrd ℚ := ⟨fun a => a ≤ 0, fun a b => a > b⟩
+    ((∀ a b : ℚ, reGt ((9 : ℚ) * a) (9 * b) = reGt a b) ∧ (∀ z : ℚ, reLe0 ((9 : ℚ) * z) = reLe0 z) ∧
+      (-3 : ℚ) * star (-3 : ℚ) = 9) ∧
+    pmtmWeights .adapt (([1, 1] : List ℚ).map ((-3) * ·)) [1 / 2, 1 / 4]
+        (([[1, 2], [3, 4]] : List (List ℚ)).map (·.map (9 * ·))) 2 4 = [[8 / 9, 16 / 25], [9 / 8, 1]] ∧
+    pmtmWeights .adapt ([1, 1] : List ℚ) [1 / 2, 1 / 4] [[1, 2], [3, 4]] 2 4
+        = [[8 / 9, 16 / 25], [9 / 8, 1]] := by
+  refine ⟨⟨?_, ?_, by norm_num⟩, by decide +kernel, by decide +kernel⟩
+  · intro a b
+    show decide (9 * a > 9 * b) = decide (a > b)
+    rw [decide_eq_decide]
+    constructor <;> intro h <;> linarith
+  · intro z
+    show decide (9 * z ≤ 0) = decide (z ≤ 0)
+    rw [decide_eq_decide]
+    constructor <;> intro h <;> linarith
+
+end Adapt
 
 /-! ### non-vacuity -/
 
